@@ -187,6 +187,31 @@ def _work(args):
                     # an unconfirmed candidate model of a quantified query is not a refutation
                     rec["verdict"] = "unknown"
             out["obligations"].append(rec)
+        if tier == "thorough" and con.replay_ is not None and getattr(con, "replay_without_model", False) and out["obligations"] \
+                and all(o["verdict"] == "proved" for o in out["obligations"]):
+            # Cross-check of the proof against CPython (thorough tier only): every obligation of the function was discharged, so the
+            # contract's witness inputs must not fail on the real code.  If they do - twice in a row - the executor's model of the
+            # code or a trusted assumption is wrong, and the failing input is a violation in its own right.  A bounded check (the
+            # listed inputs only): it adds nothing to what counts as proved.
+            try:
+                code = con.replay_(None, None, None)
+            except Exception:  # noqa: BLE001
+                code = None
+            if code:
+                path = os.path.join(REPLAY_DIR, pack.prop_id, f"{_safe(con.qualname)}__crosscheck.py")
+                header = (f"# replay for property {pack.prop_id}\n# function: {con.key}\n"
+                          f"# cross-check: every obligation of this function was discharged; the contract's witness inputs are run on the real code\n")
+                ok, outp = run_snippet(header + code, path)
+                if ok:
+                    ok, outp = _run_snippet_uncached(path)
+                out["cross_check"] = {"kind": "bounded: the contract's witness inputs run on the real code", "reproduced": ok, "replay": path}
+                if ok:
+                    names = "; ".join(nm for nm, _ in con.ensures_)[:400]
+                    out["obligations"].append({
+                        "name": f"[cross-check] every obligation was discharged, yet the witness inputs of the contract fail on the real code: {names}",
+                        "kind": "post", "line": 0, "verdict": "refuted", "backend": "replay cross-check (bounded)", "time_s": 0.0,
+                        "reproduced": True, "replay": path, "replay_output": outp[-1500:], "model": {},
+                    })
         out["time_s"] = round(res.time_s + sum(o["time_s"] for o in out["obligations"]), 3)
         out["sample"] = _sample(res)
         return out
@@ -302,6 +327,8 @@ def report(pack: Pack, results, tier, seed, wall, known_lines, active):
             continue
         if r.get("bounded"):
             bounded.append({k: r[k] for k in ("key", "bound", "cases", "result") if k in r})
+        if r.get("cross_check"):
+            bounded.append({"key": r["key"], "bound": r["cross_check"]["kind"], "result": "a witness input fails" if r["cross_check"]["reproduced"] else "no witness input fails"})
         fo = 0
         for ob in r["obligations"]:
             if ob.get("bounded"):
